@@ -527,19 +527,60 @@ class Guard:
     """A fact `cond evaluates to polarity` (cond is an expression node), or
     `scrutinee matches pat` (kind == 'pat'), or `scrutinee does not match pat`."""
 
-    __slots__ = ("kind", "node", "pol", "pat", "scrut")
+    __slots__ = ("kind", "node", "pol", "pat", "scrut", "orig", "orig_pol", "derived")
 
     def __init__(self, kind, node=None, pol=True, pat=None, scrut=None):
         self.kind = kind
+        self.derived = False  # True: obtained by expanding a boolean local's definition
+        self.orig = node
+        self.orig_pol = pol
+        # canonical form: a false `==` is a true `!=`, a false `is_some()` is
+        # a true `is_none()` (and vice versa), so that rules do not depend on
+        # which of the two spellings the code uses
+        if kind == "cond" and node is not None and not pol:
+            c = _canon_negation(node)
+            if c is not None:
+                node, pol = c, True
         self.node = node
         self.pol = pol
         self.pat = pat
         self.scrut = scrut
 
+    def holds(self, n):
+        """True/False when this guard fixes the truth value of expression node
+        n (identity), else None."""
+        if self.kind == "cond" and self.orig is n:
+            return self.orig_pol
+        return None
+
     def text(self):
         if self.kind == "cond":
             return ("" if self.pol else "!") + "(" + expr_text(self.node) + ")"
         return "%s %s %s" % (expr_text(self.scrut), "matches" if self.pol else "!matches", pat_text(self.pat))
+
+
+_NEG_OP = {"==": "!=", "!=": "=="}
+_NEG_FN = {
+    "std::option::Option::is_some": ("std::option::Option::is_none", "is_none"),
+    "std::option::Option::is_none": ("std::option::Option::is_some", "is_some"),
+    "std::result::Result::is_ok": ("std::result::Result::is_err", "is_err"),
+    "std::result::Result::is_err": ("std::result::Result::is_ok", "is_ok"),
+}
+
+
+def _canon_negation(c):
+    k = c.get("k")
+    if k == "Binary" and c["op"] in _NEG_OP:
+        c2 = dict(c)
+        c2["op"] = _NEG_OP[c["op"]]
+        c2["_canon_of"] = c
+        return c2
+    if k == "MethodCall" and c.get("fn") in _NEG_FN:
+        c2 = dict(c)
+        c2["fn"], c2["name"] = _NEG_FN[c["fn"]]
+        c2["_canon_of"] = c
+        return c2
+    return None
 
 
 def split_cond(c, pol, out):
@@ -567,7 +608,20 @@ def split_cond(c, pol, out):
     out.append(Guard("cond", node=c, pol=pol))
 
 
-def guards_at(F, n, stop_at_async=True, stop_at=None):
+def guards_at(F, n, stop_at_async=True, stop_at=None, expand=True):
+    """guards that hold at n; guards that are single-definition boolean
+    locals are expanded into the atoms of their definition (see
+    expand_local_guards) unless expand=False"""
+    out = _guards_at(F, n, stop_at_async, stop_at)
+    if expand and out and n.get("_top") is not None:
+        try:
+            out = expand_local_guards(F, out, n["_top"])
+        except KeyError:
+            pass
+    return out
+
+
+def _guards_at(F, n, stop_at_async=True, stop_at=None):
     """Conditions that hold whenever control reaches node n, derived from the
     structured control flow of the enclosing body (enclosing if / match /
     while, and earlier diverging `if` / `let-else` statements in enclosing
@@ -1904,7 +1958,8 @@ def expand_local_guards(F, guards, body, depth=3):
                 if len(defs) == 1 and not assigns:
                     tmp = []
                     split_cond(defs[0][1], g.pol, tmp)
-                    tmp = [t for t in tmp if not (t.kind == "cond" and t.node is peel(defs[0][1]))]
+                    for t in tmp:
+                        t.derived = True
                     new += tmp
         out += new
         work = new
@@ -1948,6 +2003,21 @@ def through_locals(n, depth=4):
         out.append(i)
         cur = i
     return out
+
+
+def field_of(n):
+    """name of the field the place expression n denotes, looking through
+    `&`/deref/clone wrappers and single-definition locals that merely alias a
+    place (`let slots = &mut self.graph.module_slots; slots.insert(..)`)"""
+    if n is None:
+        return None
+    for y in through_locals(n):
+        y = peel_value(y)
+        if y.get("k") == "Field":
+            return y["field"]
+        if not (y.get("k") == "Path" and y.get("res") == "local"):
+            return None
+    return None
 
 
 def mentions_field(e, field, adt=None):
